@@ -511,7 +511,7 @@ def inject(ctx):
                             if any(isinstance(z, tuple) and z[0] == 'field' and z[2] == 'functions' for z in walk(e1)) or any(isinstance(z, tuple) and z[0] == 'field' and z[2] == 'name' for z in walk(e1)):
                                 names_ok = True
             ok_used = src_ok and names_ok
-    ctx.ob(['C07', 'C05'], 'R-SLP', 'C07|taken-names-start-with-resolved-vftable', ok_used,
+    ctx.ob(['C07', 'C05', 'C13'], 'R-SLP', 'C07|taken-names-start-with-resolved-vftable', ok_used,
            'the set of method names already taken starts with the function names of the type\'s resolved vftable (own block or inherited), the same value that becomes TypeDefinition.vftable: %s' % det_u, where)
     # calls of the add_functions closure
     calls = [c for c in tdb.calls(lambda r: r['block'] in body and r['path'] in P.fns and P.fns[r['path']].kind == 'Closure')]
